@@ -179,8 +179,8 @@ func runC16(cfg *vh.Config) error {
 		term := fmt.Sprintf("CChainE %s %s\n    %d %s\n    %d %s %s %s %d", coqAnns(r.Img), coqImg(r.Img), sk, coqSrcObs(r.Src), ck, coqMethodObs(r.Methods), coqKeys(r.Schemas), coqEntObs(r.EntObs), wk)
 		addCase(stream, term, input, map[string]any{"stages": r.Stages, "methods": r.Methods, "schemas": r.Schemas})
 		if pks[i].mut == nil && r.status("source") == "ok" {
-			decl, extra := coqDeclPackage(p)
-			compileCases = append(compileCases, compileRec{term: fmt.Sprintf("CCompile %s %s\n    %s", decl, vh.BoolTerm(extra), coqImg(r.Img)), input: input})
+			decl, extra := coqDeclPackage(p, r.Img)
+			compileCases = append(compileCases, compileRec{term: fmt.Sprintf("CCompile %s %s %s\n    %s", decl, vh.BoolTerm(extra), vh.BoolTerm(p.Awkward), coqImg(r.Img)), input: input})
 		}
 		if pks[i].mut == nil {
 			res.Sample(map[string]any{"stream": stream, "package": p.Pkg, "services": len(p.Services), "schemas": len(p.Schemas), "entity": p.Entity != nil, "stages_ok": bad == nil}, 3)
@@ -296,11 +296,11 @@ func runC16(cfg *vh.Config) error {
 	}
 	// compile stream: its own shards
 	cc := &vh.CasesFile{
-		Header: "From Coq Require Import String List NArith.\nFrom J5V.lib Require Import Outcome.\nFrom J5V.model Require Import Pipeline PipelineCompile PipelineCompileCorr.",
+		Header: "From Coq Require Import String List NArith.\nFrom J5V.lib Require Import Outcome.\nFrom J5V.model Require Import Pipeline PipelineCompile PipelineValid PipelineCompileCorr.",
 		Type:   "c16compile",
 		Check:  "c16_compile_check",
 	}
-	const perC = 60
+	const perC = 20
 	for i, c := range compileCases {
 		caseNo++
 		res.Count("compile-image")
